@@ -265,8 +265,8 @@ def gen_font(r, npasses=None, dirn=None, maxloop=None, posallow=None, allow=None
             ";".join((",".join(map(str, l)) or "-") for l in sp["rm"]) or "-",
             ";".join("%d,%d,%s,%s" % (ru[0], ru[1], ru[2].hex() or "-", ru[3].hex() or "-") for ru in sp["rules"]),
             ";".join(".".join(map(str, ru[4])) for ru in sp["rules"])]))
-    model = "ipos=%d classes=%s gattr=%s passes=%s" % (ipos, ";".join(".".join(map(str, c)) for c in CLASSES),
-                                                      ";".join(".".join(map(str, g)) for g in gattr), "|".join(pm))
+    model = "ipos=%d classes=%s gattr=%s gadv=%s passes=%s" % (ipos, ";".join(".".join(map(str, c)) for c in CLASSES),
+                                                              ";".join(".".join(map(str, g)) for g in gattr), ".".join(str(500 + 10 * g) for g in range(NG)), "|".join(pm))
     desc = {"passes": np_, "ipos": ipos, "ncols": ncols, "dir": d, "model": model,
             "rules": [[{"sort": ru[0], "pre": ru[1], "con": ru[2].hex(), "act": ru[3].hex(), "pat": list(ru[4]), "kinds": ru[5]} for ru in sp["rules"]] for sp in specs]}
     return data, desc
@@ -305,7 +305,8 @@ def gen_loop_font(r):
     data = build_with(passes_fn, 1, 0, 1, CLASSES, dirn=0, gattr=gattr)
     colarr = [0xFFFF] + [(g - 1) % ncols for g in range(1, NG)]
     pm = "/".join(["%d,0,0,%d,2,3,1" % (ml, ncols), ",".join(map(str, colarr)), "0", "1,0;1,2", "0", "2,0,-,%s" % bytes(act).hex(), "0.1"])
-    model = "ipos=1 classes=%s gattr=%s passes=%s" % (";".join(".".join(map(str, c)) for c in CLASSES), ";".join(".".join(map(str, g)) for g in gattr), pm)
+    model = "ipos=1 classes=%s gattr=%s gadv=%s passes=%s" % (";".join(".".join(map(str, c)) for c in CLASSES), ";".join(".".join(map(str, g)) for g in gattr),
+                                                             ".".join(str(500 + 10 * g) for g in range(NG)), pm)
     return data, {"model": model, "passes": 1, "ipos": 1, "dir": 0, "rules": [[{"kinds": kinds}]]}
 
 
@@ -333,3 +334,28 @@ def gen_boundary_font(r):
     def passes_fn(i, base):
         return mk_pass([ru[:4] for ru in rules], ncols, cols, trans, nst, ntr, nsu, rm, [0], 0, 0, base, maxloop=3)
     return build_with(passes_fn, 1, 0, 1, CLASSES, dirn=0), {"kind": kind}
+
+
+def font_from_rules(passes, ipos, ncols, gattr=None):
+    """passes: list of (pre, maxloop, [(sort, pre, constraint bytes, action bytes, pattern)]) -> (sfnt bytes, model description)"""
+    cols = [(g, g, (g - 1) % ncols) for g in range(1, NG)]
+    specs = []
+    for pre, ml, rules in passes:
+        trans, nst, ntr, nsu, rm = trie_fsm([ru[4] for ru in rules], ncols)
+        specs.append(dict(pre=pre, rules=rules, ml=ml, trans=trans, nst=nst, ntr=ntr, nsu=nsu, rm=rm))
+
+    def passes_fn(i, base):
+        sp = specs[i]
+        return mk_pass([ru[:4] for ru in sp["rules"]], ncols, cols, sp["trans"], sp["nst"], sp["ntr"], sp["nsu"], sp["rm"], [0], sp["pre"], sp["pre"], base, maxloop=sp["ml"])
+    gattr = gattr or [[0, 0, 0, 0] for _ in range(NG)]
+    data = build_with(passes_fn, len(specs), 0, ipos, CLASSES, dirn=0, gattr=gattr)
+    colarr = [0xFFFF] + [(g - 1) % ncols for g in range(1, NG)]
+    pm = []
+    for sp in specs:
+        pm.append("/".join(["%d,%d,%d,%d,%d,%d,%d" % (sp["ml"], sp["pre"], sp["pre"], ncols, sp["ntr"], sp["nst"], sp["nsu"]), ",".join(map(str, colarr)), "0",
+                            ";".join(",".join(map(str, row)) for row in sp["trans"]) or "-", ";".join((",".join(map(str, l)) or "-") for l in sp["rm"]) or "-",
+                            ";".join("%d,%d,%s,%s" % (ru[0], ru[1], ru[2].hex() or "-", ru[3].hex() or "-") for ru in sp["rules"]),
+                            ";".join(".".join(map(str, ru[4])) for ru in sp["rules"])]))
+    model = "ipos=%d classes=%s gattr=%s gadv=%s passes=%s" % (ipos, ";".join(".".join(map(str, c)) for c in CLASSES), ";".join(".".join(map(str, g)) for g in gattr),
+                                                              ".".join(str(500 + 10 * g) for g in range(NG)), "|".join(pm))
+    return data, model
